@@ -97,6 +97,9 @@ def eqhash_law(which, chunk=None, timeout_ms=None):
     from contracts import eqhash as E
     ix = extract.Index()
     th = T.SpecTheory(ix)
+    if which == "compound":
+        th, ih, law = E.compound_theory(ix)
+        return verify.verify_cases(ix, th, "law:eqhash.compound", list(E.compound_cases(th, ih, law)), timeout_ms=timeout_ms)
     if which == "pairs":
         cases = list(E.pair_cases(th))
     elif which == "reflexive":
